@@ -105,3 +105,62 @@ private:
 
 }  // namespace c02
 }  // namespace canary
+
+namespace canary
+{
+namespace c02
+{
+// publication skipped when the exporter's flush fails (C02.R9)
+class BadBatch2
+{
+public:
+  explicit BadBatch2(std::unique_ptr<SpanExporter> &&e) : exporter_(std::move(e)), buffer_(16)
+  {
+    worker_ = std::thread(&BadBatch2::Work, this);
+  }
+  bool ForceFlush(std::chrono::microseconds) noexcept
+  {
+    uint64_t mine = pending_.fetch_add(1) + 1;
+    return notified_.load() >= mine;
+  }
+  bool Shutdown(std::chrono::microseconds) noexcept
+  {
+    is_shutdown_.exchange(true);
+    return true;
+  }
+
+private:
+  void Work()
+  {
+    while (!is_shutdown_.load())
+    {
+      std::vector<std::unique_ptr<Recordable>> arr;
+      uint64_t ticket = pending_.load();
+      size_t n        = buffer_.size();
+      buffer_.Consume(n, [&](opentelemetry::sdk::common::CircularBufferRange<
+                             opentelemetry::sdk::common::AtomicUniquePtr<Recordable>> range) noexcept {
+        range.ForEach([&](opentelemetry::sdk::common::AtomicUniquePtr<Recordable> &ptr) {
+          std::unique_ptr<Recordable> p;
+          ptr.Swap(p);
+          arr.push_back(std::move(p));
+          return true;
+        });
+      });
+      exporter_->Export(nostd::span<std::unique_ptr<Recordable>>(arr.data(), arr.size()));
+      if (ticket > notified_.load())
+      {
+        if (!exporter_->ForceFlush(std::chrono::microseconds(1)))
+          continue;  // ticket never published when the exporter fails
+        notified_.store(ticket);
+      }
+    }
+  }
+  std::unique_ptr<SpanExporter> exporter_;
+  opentelemetry::sdk::common::CircularBuffer<Recordable> buffer_;
+  std::atomic<uint64_t> pending_{0};
+  std::atomic<uint64_t> notified_{0};
+  std::atomic<bool> is_shutdown_{false};
+  std::thread worker_;
+};
+}  // namespace c02
+}  // namespace canary
